@@ -9,7 +9,8 @@
 (* obs.banner[o]: the option value recorded in the banner of the generated *)
 (* file; obs.behaviour[o]: the value the generated code exhibits           *)
 (* (scalar type of the kernel signature, tensor-factor loops, rank of the  *)
-(* bilinear form, file suffix), "n/a" where there is no such witness.      *)
+(* bilinear form, file suffix, exact/clamped tensor of the compiled and    *)
+(* called kernel - see Options!Witness), "n/a" where there is no witness.  *)
 (*   <<"OK", id>>   |   <<"VIOL", id, option, witness, expected, observed>>*)
 (***************************************************************************)
 EXTENDS Options, Json, IOUtils
@@ -21,16 +22,18 @@ JInit == i = 1 /\ cfg = Cases[1].cfg
 JNext == i < Len(Cases) /\ i' = i + 1 /\ cfg' = Cases[i + 1].cfg
 JSpec == JInit /\ [][JNext]_<<i, cfg>>
 
-OptSeq == <<"scalar_type", "sum_factorization", "table_rtol", "part", "language">>
+OptSeq == <<"scalar_type", "sum_factorization", "table_rtol", "table_atol", "epsilon", "verbosity", "part", "language">>
 
 Bad(o) ==
   LET e == Effective(cfg, o)  ob == Cases[i].obs IN
   (IF ob.banner[o] = e THEN <<>> ELSE <<<<o, "banner", e, ob.banner[o]>>>>)
-  \o (IF ob.behaviour[o] \in {"n/a", e} THEN <<>> ELSE <<<<o, "behaviour", e, ob.behaviour[o]>>>>)
+  \o (IF ob.behaviour[o] \in {"n/a", Witness(o, e)} THEN <<>> ELSE <<<<o, "behaviour", Witness(o, e), ob.behaviour[o]>>>>)
 
 Judge ==
   IF ~Cases[i].obs.generated THEN PrintT(<<"VIOL", Cases[i].id, "(all)", "generated", "TRUE", "FALSE">>)
-  ELSE LET M == Bad(OptSeq[1]) \o Bad(OptSeq[2]) \o Bad(OptSeq[3]) \o Bad(OptSeq[4]) \o Bad(OptSeq[5]) IN
+  ELSE LET RECURSIVE All(_)
+           All(k) == IF k > Len(OptSeq) THEN <<>> ELSE Bad(OptSeq[k]) \o All(k + 1)
+           M == All(1) IN
        IF M = <<>> THEN PrintT(<<"OK", Cases[i].id>>)
        ELSE \A k \in DOMAIN M : PrintT(<<"VIOL", Cases[i].id, M[k][1], M[k][2], M[k][3], M[k][4]>>)
 =============================================================================
